@@ -6,6 +6,12 @@ from memdoc import memdoc
 from vlib.hk import done
 
 
+def _ser_ok(part):
+    """what the part serialises is its tree as it is in memory (clone included, edits included)"""
+    import lxml.etree as ET
+    return S.canon(ET.fromstring(part.serialize())) == S.canon(part.root._Element__element)
+
+
 def meta_clone(s: str, set_before: bool, edit_clone: bool, t: str) -> bool:
     """
     pre: len(s) <= 2 and len(t) <= 2 and all(32 < ord(c) < 127 for c in s + t)
@@ -44,7 +50,7 @@ def content_clone(t: str, edit_clone: bool) -> bool:
     before = S.canon(b.root._Element__element)
     a.body.append(Paragraph("y"))
     indep = S.canon(b.root._Element__element) == before and len(a.body.get_elements("text:p")) == 2 and len(b.body.get_elements("text:p")) == 1
-    return done(born and indep)
+    return done(born and indep and _ser_ok(c) and _ser_ok(content))
 
 
 def _doc_state(doc):
